@@ -2,6 +2,7 @@
 value up or fails (never a default), substitution is exact and recursive, and precedes planning."""
 from ..cfg import Body
 from ..report import where
+from ..facts import in_module
 from .c10 import pats, vname
 
 LEVEL = "other"
@@ -97,10 +98,123 @@ def run(ctx, F, cg):
             ctx.saw_fn(p); ctx.saw_calls(len(b.calls()))
             short = r["self"].rsplit("::", 1)[-1].split("<")[0]
             if subs and all(not any(s.bb in b.reachable(pl.bb) for s in subs) and any(pl.bb in b.reachable(s.bb) for s in subs) for pl in plans):
-                ctx.ok("R35c", short + "::execute", "substitute_params precedes every plan() call")
+                # the only reason to skip the substitution is that both parameter maps are empty: every branch that
+                # can bypass substitute_params on the way to plan() is decided by is_empty() tests alone
+                sub_bbs = {s.bb for s in subs}
+                culprit = None
+                for i in sorted(b.live_blocks()):
+                    t = b.blocks[i]["t"]
+                    if t[0] != "switch" or t[1][0] == "k":
+                        continue
+                    if not any(b.dominates(i, s.bb) or s.bb in b.reachable(i) for s in subs):
+                        continue
+                    bypass = [s_ for s_ in b.succ(i) if any(pl.bb in b.reachable(s_, avoid=sub_bbs | {i}) for pl in plans)]
+                    takes = [s_ for s_ in b.succ(i) if sub_bbs & b.reachable(s_, avoid={i})]
+                    if not bypass or not takes or set(bypass) == set(takes) and len(b.succ(i)) == 1:
+                        continue
+                    if not (set(b.succ(i)) - set(bypass)):
+                        continue        # no side is forced through the substitution: not the deciding branch
+                    og = b.origins(t[1][1][0], through_calls=lambda cc: None)
+                    srcs = [o[1].path.rsplit("::", 1)[-1] for o in og if o[0] == "call"]
+                    others = [x for x in srcs if x != "is_empty"]
+                    if others or not srcs:
+                        culprit = (b.blocks[i]["l"], others or ["a value that is not an emptiness test"])
+                if culprit:
+                    ctx.violation("R35c", short + "::execute|substitution-skipped-on-a-guess", where(r, culprit[0]),
+                                  "whether parameters are substituted also depends on %s (line %d), not only on the parameter maps being empty: a statement the pre-check misjudges runs with its parameters left in place, and positions whose evaluation errors are swallowed (sort keys) then answer silently differently" % (culprit[1], culprit[0]))
+                else:
+                    ctx.ok("R35c", short + "::execute", "substitute_params precedes every plan() call and is skipped only when both parameter maps are empty")
             else:
                 ctx.violation("R35c", short + "::execute|plan-before-substitution", where(r), "the query is planned before / without parameter substitution")
     ctx.floor("R35c", "executor entry points that plan", n, 2)
+    # ---- R35d / R35e / R35f ---------------------------------------------------------------------------------
+    ctx.rule("R35d", "sort keys swallow evaluation errors (a failing key sorts as null), so an unsubstituted parameter there differs silently: for every AST struct the substitution visits, every field holding an ORDER BY clause is visited too")
+    ctx.rule("R35e", "the clause-pipeline form is substituted as well: substitute_params reads Query::clauses and its match over Clause has no wildcard arm and handles With / Where / Unwind / Return / Set")
+    ctx.rule("R35f", "inventory of discarded evaluation errors in the executor: every site where the Err of an expression / predicate evaluation is dropped (unwrap_or, ok, ...) is a reviewed sort-key site; anywhere else a failing expression (or a leftover parameter) would silently change the rows")
+    sp = F.fn("query::executor::substitute_params")
+    helpers = [sp] + [F.fns[c] for c in sp["calls"] if c in F.fns and c.startswith("samyama::query::executor::substitute_") and not c.endswith("substitute_expr")]
+    visited = set()
+    for h in helpers:
+        visited |= set(h["r"]) | set(h["w"])
+        ctx.saw_fn(h["path"])
+    structs = sorted({f.rsplit(".", 1)[0] for f in visited if f.startswith("samyama::query::ast::") and "::" not in f.rsplit(".", 1)[0].replace("samyama::query::ast::", "")})
+    n_ob = 0
+    for st in structs:
+        adt_ = F.adts.get(st)
+        if not adt_ or adt_.get("enum"):
+            continue
+        for fname, fty, _ in adt_["variants"][0]["fields"]:
+            if "ast::OrderByClause" in fty:
+                n_ob += 1
+                key = "%s.%s" % (st, fname)
+                short = key.replace("samyama::query::ast::", "")
+                if key in visited:
+                    ctx.ok("R35d", short, "visited by the substitution")
+                else:
+                    ctx.violation("R35d", short + "|order-by-not-substituted", where(sp), "the substitution visits %s but not its `%s`: a parameter in that ORDER BY stays in place, its evaluation error is swallowed by the sort, and the rows come back in a different order than with the value inlined" % (st.rsplit("::", 1)[-1], fname))
+    ctx.floor("R35d", "ORDER BY positions in visited AST structs", n_ob, 2)
+    cm = [m for h in helpers for m in F.arms(h["path"]) if m["sty"].replace("&", "").replace("mut ", "").strip().endswith("ast::Clause")]
+    if "samyama::query::ast::Query.clauses" not in visited or not cm:
+        ctx.violation("R35e", "substitute_params|pipeline-not-visited", where(sp), "substitute_params does not walk Query::clauses: nothing in a clause-pipeline statement (WITH ... MATCH ... WITH ...) is substituted")
+    else:
+        handled, wild = set(), False
+        for arm in cm[0]["arms"]:
+            for p_ in pats(arm["pat"]):
+                v = vname(p_)
+                if v is None:
+                    wild = True
+                elif any(c.endswith("substitute_expr") or c.startswith("samyama::query::executor::substitute_") for c in arm["calls"]):
+                    handled.add(v)
+        need = {"With", "Where", "Unwind", "Return", "Set"}
+        if wild:
+            ctx.violation("R35e", "substitute_params|clause-wildcard", where(sp), "the match over Clause has a wildcard arm: a new clause kind would silently stay unsubstituted")
+        elif need - handled:
+            ctx.violation("R35e", "substitute_params|clause-not-substituted|" + ",".join(sorted(need - handled)), where(sp), "clause kinds %s are matched but not substituted" % sorted(need - handled))
+        else:
+            ctx.ok("R35e", "substitute_params|pipeline", "clauses walked; %s substituted, no wildcard" % sorted(handled))
+    n_dis = 0
+    for owner, callee, how, r_, line in error_discard_sites(F):
+        n_dis += 1
+        site = [k for k in SORT_KEY_SITES if owner.endswith(k) or k in owner]
+        inst = "%s|%s|%s" % (owner, callee, how)
+        if site:
+            ctx.ok("R35f", inst, "reviewed: " + SORT_KEY_SITES[site[0]])
+        else:
+            ctx.violation("R35f", inst + "|evaluation-error-dropped", where(r_, line),
+                          "%s drops the error of %s with %s: a predicate or expression that fails on some row (type error, leftover parameter) silently changes which rows are returned instead of failing the query" % (owner, callee, how))
+    ctx.floor("R35f", "evaluation results whose error is discarded", n_dis, 3)
     return ("Decided: the only ways a parameterised run could differ silently from the inlined one — an evaluation arm that defaults instead of looking up, "
             "an inexact or non-recursive substitution, or planning before substitution. Refusal (an error for an unsubstituted $p) is allowed by the property. "
             "Not decided: equality of results (C01).")
+
+
+EVAL = ("eval_expression", "evaluate_expression", "eval_predicate", "evaluate_predicate", "eval_predicate_standalone", "eval_expression_standalone")
+DISCARD = ("unwrap_or", "unwrap_or_default", "unwrap_or_else", "ok", "is_ok", "is_err")
+SORT_KEY_SITES = {
+    "SortOperator::key_of": "ORDER BY key: a failing key sorts as null (engine's leniency, same for inlined values)",
+    "SortOperator::key_of_cached": "ORDER BY key (cached form), as key_of",
+    "WithBarrierOperator::execute_all": "WITH ... ORDER BY key, as key_of",
+}
+
+
+def error_discard_sites(F):
+    """(owner, evaluator, discarding method, fn record, line) for every evaluation Result whose Err is dropped."""
+    out = []
+    for p_, r_ in sorted(F.fns.items()):
+        if not in_module(p_, "samyama::query::executor::") or "::tests::" in p_:
+            continue
+        if not any(c.rsplit("::", 1)[-1] in EVAL for c in r_["calls"]):
+            continue
+        m_ = F.mir(p_)
+        if not m_:
+            continue
+        bb_ = Body(m_, r_)
+        for c in bb_.calls():
+            if c.path.rsplit("::", 1)[-1] not in EVAL:
+                continue
+            for u in bb_.uses_of(c.dest[0]):
+                if u[0] == "call" and u[2] == 0 and u[1].path.rsplit("::", 1)[-1] in DISCARD and "Result" in u[1].path:
+                    owner = p_.split("::{closure")[0].replace("samyama::query::executor::operator::", "").replace("samyama::query::executor::", "")
+                    owner = owner.replace("<", "").replace(">", "")
+                    out.append((owner, c.path.rsplit("::", 1)[-1], u[1].path.rsplit("::", 1)[-1], r_, c.line))
+    return out
